@@ -281,6 +281,45 @@ theorem load_persist_legacy (a : AccState) (h : WF a) :
   simp only [load, persist, e1, e3, o1, o2, o3, Option.getD_some, keyOfHex_toHex _ h4,
     keyOfHex_toHex _ h5, dictOf_nodup _ h1, dictOf_nodup _ hk, dictOf_nodup _ h3]
 
+/-- files of the oldest generation: neither permissions nor identifier bytes stored -/
+theorem load_persist_oldest (a : AccState) (h : WF a) :
+    load { persist a with clientProperties := none, clientUuidToBytes := none } =
+      some { a with ps := { a.ps with props := a.ps.paired.map fun e => (e.1, 1), u2b := [] } } := by
+  obtain ⟨mac, cv, ah, priv, pub, ⟨paired, props, u2b⟩⟩ := a
+  obtain ⟨h1, h2, h3, h4, h5⟩ := h
+  simp only at h1 h2 h3 h4 h5
+  have e1 := dictOf_map_str (fun e : Uuid × Bytes => toHex e.2) paired h1
+  have o1 : optMap entryOfStr (paired.map fun e => (strOfUuid e.1, toHex e.2)) = some paired :=
+    optMap_map _ _ _ (by intro x _; simp [entryOfStr, uuidOfStr_strOfUuid, ofHex_toHex])
+  have o2 : optMap legacyProp (paired.map fun e => (strOfUuid e.1, toHex e.2))
+      = some (paired.map fun e => (e.1, 1)) :=
+    optMap_map' _ _ _ _ (by intro x _; simp [legacyProp, uuidOfStr_strOfUuid])
+  have hk : (akeys (paired.map fun e => (e.1, (1 : Nat)))).Nodup := by
+    have : akeys (paired.map fun e => (e.1, (1 : Nat))) = akeys paired := by
+      simp [akeys, List.map_map, Function.comp_def]
+    rw [this]; exact h1
+  have o3 : optMap entryOfStr ([] : List (String × String)) = some [] := rfl
+  have d0 : dictOf ([] : List (Uuid × Bytes)) = [] := rfl
+  simp only [load, persist, e1, o1, o2, o3, d0, Option.getD_none, keyOfHex_toHex _ h4,
+    keyOfHex_toHex _ h5, dictOf_nodup _ h1, dictOf_nodup _ hk]
+
+/-- files of the middle generation: permissions stored, identifier bytes not yet -/
+theorem load_persist_middle (a : AccState) (h : WF a) :
+    load { persist a with clientUuidToBytes := none } = some { a with ps := { a.ps with u2b := [] } } := by
+  obtain ⟨mac, cv, ah, priv, pub, ⟨paired, props, u2b⟩⟩ := a
+  obtain ⟨h1, h2, h3, h4, h5⟩ := h
+  simp only at h1 h2 h3 h4 h5
+  have e1 := dictOf_map_str (fun e : Uuid × Bytes => toHex e.2) paired h1
+  have e2 := dictOf_map_str (fun e : Uuid × Nat => e.2) props h2
+  have o1 : optMap entryOfStr (paired.map fun e => (strOfUuid e.1, toHex e.2)) = some paired :=
+    optMap_map _ _ _ (by intro x _; simp [entryOfStr, uuidOfStr_strOfUuid, ofHex_toHex])
+  have o2 : optMap propOfStr (props.map fun e => (strOfUuid e.1, e.2)) = some props :=
+    optMap_map _ _ _ (by intro x _; simp [propOfStr, uuidOfStr_strOfUuid])
+  have o3 : optMap entryOfStr ([] : List (String × String)) = some [] := rfl
+  have d0 : dictOf ([] : List (Uuid × Bytes)) = [] := rfl
+  simp only [load, persist, e1, e2, o1, o2, o3, d0, Option.getD_none, keyOfHex_toHex _ h4,
+    keyOfHex_toHex _ h5, dictOf_nodup _ h1, dictOf_nodup _ h2]
+
 theorem akeys_foldl_aset {K V W : Type} [DecidableEq K] (l : List K) (f : K → V) (g : K → W)
     (acc1 : List (K × V)) (acc2 : List (K × W)) (h : akeys acc1 = akeys acc2) :
     akeys (l.foldl (fun acc k => aset acc k (f k)) acc1) = akeys (l.foldl (fun acc k => aset acc k (g k)) acc2) := by
